@@ -34,10 +34,8 @@ var flavorNames = []string{"arith", "calls", "mem", "indirect", "loop64", "globa
 
 func corpusSpecs(thorough bool) []modSpec {
 	var out []modSpec
-	if os.Getenv("VERIF_C13_EXTRA") == "nofunc" {
-		// probe outside the stated bounds (1..300 functions): a module without any function
-		out = append(out, modSpec{Name: "nofunc-0", N: 0, Flavor: flMem})
-	}
+	// a module without any function (memory + data only): its entry has an empty code segment
+	out = append(out, modSpec{Name: "nofunc-0", N: 0, Flavor: flMem})
 	add := func(n, fl int) {
 		out = append(out, modSpec{Name: fmt.Sprintf("%s-%d", flavorNames[fl], n), N: n, Flavor: fl})
 	}
